@@ -251,6 +251,15 @@ inductive BuildRes where
   | ok : Built → BuildRes
 deriving Repr, DecidableEq
 
+/-- "If there are any supplementary-plane characters we also emit format 12 subtables";
+outer `none` = the `unwrap` panic of `create_format_12` -/
+def buildFormat12 (m : Mapping) : Option (Option (List Group)) :=
+  if m.any (fun p => p.1 > 0xFFFF) then
+    (match createFormat12 m with
+     | none => none
+     | some g => some (some g))
+  else some none
+
 def fromMappings (raw : Mapping) : BuildRes :=
   let m := normalize raw
   match findConflict m with
@@ -259,13 +268,7 @@ def fromMappings (raw : Mapping) : BuildRes :=
     match createFormat4 m with
     | .trap => .trap
     | .ok f4 =>
-      let f12 : Option (Option (List Group)) :=
-        if m.any (fun p => p.1 > 0xFFFF) then
-          (match createFormat12 m with
-           | none => none
-           | some g => some (some g))
-        else some none
-      match f12 with
+      match buildFormat12 m with
       | none => .trap
       | some f12 =>
         -- compile (`dump_table`): the format-4 length must fit 16 bits
@@ -522,6 +525,36 @@ def charmapMappings (s : Subtable) (limits : Nat × Nat) : Mapping :=
   | .f4 t => (iter4 t).filter (fun p => p.2 ≠ 0)
   | .f12 g => (iter12 g (some limits)).filter (fun p => p.2 ≠ 0)
   | .other => []
+
+/-! ## skrifa on the table `from_mappings` builds -/
+
+/-- encoding records of the built table, as `MappingSelection::new` sees them
+(Unicode BMP, Unicode full, Windows BMP, Windows full) -/
+def Built.records (b : Built) : List Record :=
+  let f4u : List Record := match b.fmt4 with | some _ => [(0, 3, .f4)] | none => []
+  let f12u : List Record := match b.fmt12 with | some _ => [(0, 4, .f12)] | none => []
+  let f4w : List Record := match b.fmt4 with | some _ => [(3, 1, .f4)] | none => []
+  let f12w : List Record := match b.fmt12 with | some _ => [(3, 10, .f12)] | none => []
+  f4u ++ f12u ++ f4w ++ f12w
+
+/-- `Charmap::new`: the selected codepoint subtable and its symbol flag -/
+def Built.skCharmap (b : Built) : Option (Subtable × Bool) :=
+  let sel := select b.records
+  match sel.codepointIx with
+  | none => none
+  | some i => (b.subtables[i]?).map (fun s => (s, sel.isSymbol))
+
+/-- `Charmap::map` -/
+def Built.skMap (b : Built) (c : Nat) : Option Nat :=
+  match b.skCharmap with
+  | none => none
+  | some (s, sym) => charmapMap s sym c
+
+/-- `Charmap::mappings`; `limits` = `Cmap12IterLimits::default_for_font` = (char::MAX, maxp.numGlyphs) -/
+def Built.skMappings (b : Built) (limits : Nat × Nat) : Mapping :=
+  match b.skCharmap with
+  | none => []
+  | some (s, _) => charmapMappings s limits
 
 /-! ## read-fonts: format 14 -/
 
